@@ -17,7 +17,7 @@ func checkC13(c *Ctx, r *Report, tier string) {
 	r.Rule("C13.R2", "edge and shard locks are leaf locks: while one may be held, no call that can acquire a mutex and no channel operation (⇒ no lock-order cycle inside the index)", 10)
 	r.Rule("C13.R3", "atomic-only fields (entry point, item/byte counters, tombstone) are touched only as &field arguments of sync/atomic functions (constructors and the apply-goroutine snapshot reader excepted)", 10)
 	r.Rule("C13.R5", "check-then-act atomicity: the existence test and the insert / delete of a shard-map entry happen under one hold of the shard's write lock (two concurrent inserts of one id cannot both succeed)", 2)
-	r.Rule("C13.R4", "vertex fields read without a lock by searches (id, vector, metadata, level) are stored only while the vertex is still private to its constructor", 4)
+	r.Rule("C13.R4", "vertex fields read without a lock by searches (id, vector, metadata, level) are stored only while the vertex is still private to its constructor; their contents are never written in place", 5)
 	if len(x.missing) > 0 {
 		r.Unk("C13.R1", "index", "anchors", "-", "cannot resolve: "+strings.Join(x.missing, ", "))
 		return
@@ -39,6 +39,7 @@ func checkC13(c *Ctx, r *Report, tier string) {
 	c13R2(c, r, x)
 	c13R3(c, r, x)
 	c13R4(c, r, x)
+	publishedVertexWrites(c, r, "C13.R4")
 }
 
 // acquirers: module functions that may acquire a mutex or perform a channel operation (transitively).
